@@ -13,3 +13,6 @@ import FP.Props.C06
 #print axioms FP.Props.C06.de_morgan_or
 #print axioms FP.Props.C06.implies_eq_not_or
 #print axioms FP.Props.C06.notFn_spec
+#print axioms FP.Props.C06.expr_criterion_multi_item_is_error
+#print axioms FP.Props.C06.expr_criterion_single_item
+#print axioms FP.Props.C06.expr_connective
